@@ -55,7 +55,9 @@ func NewUntrustedMessageHandlers(ctx context.Context, trustedState *state.State,
 	memPool *state.MemPool, txChannel *TxChannel,
 	isRelevant IsRelevant, address string) map[string]MessageHandler {
 
-	blockHandler := NewBlockHandler(trustedState, nil)
+	// Untrusted nodes are never asked for blocks, so a block from one is not a response to a
+	// request. Handing it to the trusted node's block requests would let any peer replace a block
+	// the trusted node delivered with a body that is going to be refused.
 	txHandler := NewUntrustedTXHandler(untrustedState, txChannel)
 
 	return map[string]MessageHandler{
@@ -64,9 +66,8 @@ func NewUntrustedMessageHandlers(ctx context.Context, trustedState *state.State,
 		wire.CmdAddr:     NewAddressHandler(peers),
 		wire.CmdInv:      NewUntrustedInvHandler(untrustedState, tracker, memPool),
 		wire.CmdTx:       txHandler,
-		wire.CmdBlock:    blockHandler,
 		wire.CmdHeaders:  NewUntrustedHeadersHandler(untrustedState, peers, address, blockRepo),
 		wire.CmdReject:   NewRejectHandler(),
-		wire.CmdExtended: NewExtendedHandler(blockHandler, txHandler),
+		wire.CmdExtended: NewExtendedHandler(nil, txHandler),
 	}
 }
